@@ -42,6 +42,10 @@ impl Monitor for C07 {
             ("consecutive-commands".into(), tier.pick(200, 10_000)),
             ("f:test:exp:gt-after-exit".into(), tier.pick(400, 20_000)),
             ("f:test:exp:big-bracket".into(), tier.pick(1_000, 50_000)),
+            ("f:crlf".into(), tier.pick(400, 20_000)),
+            ("f:crlf-mixed".into(), tier.pick(400, 20_000)),
+            ("f:test:exp:cr-inside".into(), tier.pick(400, 20_000)),
+            ("f:test:exp:cr-end".into(), tier.pick(50, 2_500)),
         ];
         p.assumptions = vec![
             "title: the last unindented line since the previous test ended; without one both \"\" and the previous title are accepted; after look-alike title lines (` $ x`, a single blank, `> x`, `[n]`) any of the segment's title lines is accepted".into(),
